@@ -94,7 +94,7 @@ txt += ("\nLessons that were turned into input classes everywhere they apply: in
         "kept by reference in the constructors, a block-diagonal buffer typed by the first operand, conjugation decided by the dtype of the last site, a fast path\n"
         "for already right-canonical states that reports the norm without dividing it out, a merge condition dropped for the retained node, a unit-coefficient fast\n"
         "path that overwrites parallel edges, a greedy start hiding an off-by-one in the infinite distance, and the others listed in the table were caught at the\n"
-        "first try by input classes added in earlier rounds, unless their row says otherwise (13 kept, 1 missed at first: the complete-manifold DMRG workload of C10 now\n"
+        "first try by input classes added in earlier rounds, unless their row says otherwise (14 kept, 1 missed at first: the complete-manifold DMRG workload of C10 now\n"
         "also uses complex Hermitian operators -- a diagonal phase gauge of the built-in models, spectrum unchanged -- with start states of REAL dtype; a C19 candidate\n"
         "was discarded because the repository's own `test_add` fails with it).\n\n"
         "Note on the repository suite: `test_krylov.py::test_eigh_krylov` fails in about 2 % of runs on the unchanged tree (12 of 600 seeded replays of its body, the\n"
